@@ -24,6 +24,7 @@ class ParsedRun(travlib.Run):
         for k in ("max_tries", "max_concurrent_tries", "rerun_status", "stop_status", "pool_filter", "pool_scope", "dry_run"):
             if cfg.get(k) is not None:
                 param_dict[k] = str(cfg[k])
+        param_dict.update(cfg.get("params", {}))
         config = {"param_dict": param_dict, "tests_str": sel["tests_str"], "vm_strs": dict(sel["vm_strs"])}
         self.loader = TestLoader(config=config, extra_params={})
         graph = m.TestGraph.parse_object_trees(None, config["tests_str"], "", config["vm_strs"], config["param_dict"])
@@ -67,6 +68,13 @@ def gen_parsed_spec(rng, idx=None):
         cfg["max_tries"] = rng.choice([1, 2, 2, 3])
         if rng.random() < 0.3:
             cfg["max_concurrent_tries"] = rng.choice([1, 1, 2])
+    if rng.random() < 0.5:
+        # removal policies per object TYPE: the image states of a vm may be marked for removal while its vm-level states are
+        # kept (or the other way round); every state is removed or kept by the policy of its own object
+        vm = rng.choice(["vm1", "vm2"])
+        cfg["params"] = rng.choice([{f"unset_mode_images_{vm}": "fi", f"unset_mode_vms_{vm}": "ri"},
+                                    {f"unset_mode_images_{vm}": "ri", f"unset_mode_vms_{vm}": "fi"},
+                                    {f"unset_mode_images_{vm}": "fi"}, {f"unset_mode_vms_{vm}": "fi"}])
     sched = {}
     for wid in nets.split():
         seq = []
@@ -98,6 +106,7 @@ class LazyParsedRun(ParsedRun):
         for k in ("max_tries", "max_concurrent_tries", "rerun_status", "stop_status", "pool_filter", "pool_scope", "dry_run"):
             if cfg.get(k) is not None:
                 param_dict[k] = str(cfg[k])
+        param_dict.update(cfg.get("params", {}))
         config = {"param_dict": param_dict, "tests_str": sel["tests_str"], "vm_strs": dict(sel["vm_strs"])}
         self.loader = TestLoader(config=config, extra_params={})
         # 1. the eager graph of the same input: only names and parent sets are kept
